@@ -477,3 +477,95 @@ PROPS = {
     "C09": dict(level="other"),
     "C16": dict(level="other"),
 }
+
+
+# ------------------------------------------------------------------ move assignment / move construction of the sequence (C09, C20)
+# The sequence summary (direction, all-single, graph/elevation-updated flags, snapshot keys) must survive a move: flow_graph is
+# constructed from a moved sequence, and tests/bindings build sequences by move-assignment.
+MOVE_FIELDS = ["m_elevation_updated", "m_graph_updated", "m_out_flowdir", "m_all_single_flow", "n_ops", "n_impls", "n_graph_keys", "n_elev_keys"]
+MOVE_VOCAB = [
+    V(r"m_op_vec = std::move\(operators\.m_op_vec\);", "s->n_ops = operators->n_ops;"),
+    V(r"m_op_impl_vec = std::move\(operators\.m_op_impl_vec\);", "s->n_impls = operators->n_impls;"),
+    V(r"m_graph_snapshot_keys = std::move\(operators\.graph_snapshot_keys\(\)\);", "s->n_graph_keys = operators->n_graph_keys; FSL_COPY_KEYS(s->graph_keys, operators->graph_keys);"),
+    V(r"m_graph_snapshot_single_flow = std::move\(operators\.m_graph_snapshot_single_flow\);", "FSL_COPY_MAP(s, operators);"),
+    V(r"m_elevation_snapshot_keys = std::move\(operators\.elevation_snapshot_keys\(\)\);", "s->n_elev_keys = operators->n_elev_keys; FSL_COPY_KEYS(s->elev_keys, operators->elev_keys);"),
+    V(r"\bm_(elevation_updated|graph_updated|out_flowdir|all_single_flow) = operators\.(\w+)\(\);", r"s->m_\1 = operators->m_\2;"),
+    V(r"return \*this;", "return;"),
+]
+MOVE_MODEL = r"""
+#define FSL_COPY_KEYS(d, sarr) do { for (int k_ = 0; k_ < MAXKEYS; ++k_) (d)[k_] = (sarr)[k_]; } while (0)
+#define FSL_COPY_MAP(d, sp) do { for (int k_ = 0; k_ < MAXNAMES; ++k_) { (d)->snap_present[k_] = (sp)->snap_present[k_]; (d)->snap_single[k_] = (sp)->snap_single[k_]; } } while (0)
+"""
+MOVE_POST = " && ".join("s->%s == __CPROVER_old(operators->%s)" % (f, f) for f in MOVE_FIELDS)
+
+move_assign = Unit(
+    name="opseq_move_assign", file=OP_H,
+    anchor=r"flow_operator_sequence<FG>& operator=\(flow_operator_sequence<FG>&& operators\)",
+    sig="void opseq_move_assign(struct opseq *s, const struct opinst *unused, const struct opseq *operators)",
+    rules=MOVE_VOCAB,
+    contract=r"""
+__CPROVER_requires(__CPROVER_is_fresh(s, sizeof(*s)) && __CPROVER_is_fresh(operators, sizeof(*operators)))
+__CPROVER_assigns(__CPROVER_object_whole(s))
+/* C09/C20: every summary property of the sequence is carried over by a move */
+__CPROVER_ensures(%s)
+""" % MOVE_POST,
+)
+
+
+def _move_ctor_body():
+    """mem-initialiser list of the move constructor, turned into assignments mechanically"""
+    src = ex.strip_comments(open(os.path.join(ex.REPO, OP_H)).read())
+    m = re.search(r"flow_operator_sequence\(flow_operator_sequence<FG>&& operators\)\s*:(.*?)\{\s*\}", src, re.S)
+    if not m:
+        raise ex.ExtractionError("move constructor of flow_operator_sequence not found")
+    out = []
+    for item in re.split(r",\s*(?=m_\w+\()", m.group(1).strip()):
+        mm = re.match(r"(m_\w+)\((.*)\)\s*$", item.strip(), re.S)
+        if not mm:
+            raise ex.ExtractionError("move constructor: unexpected initialiser %r" % item)
+        out.append("%s = %s;" % (mm.group(1), mm.group(2).strip()))
+    return "\n".join(out) + "\n"
+
+
+MOVE_CTOR_VOCAB = [
+    V(r"m_op_vec = std::move\(operators\.m_op_vec\);", "s->n_ops = operators->n_ops;"),
+    V(r"m_op_impl_vec = std::move\(operators\.m_op_impl_vec\);", "s->n_impls = operators->n_impls;"),
+    V(r"m_graph_snapshot_keys = operators\.graph_snapshot_keys\(\);", "s->n_graph_keys = operators->n_graph_keys; FSL_COPY_KEYS(s->graph_keys, operators->graph_keys);"),
+    V(r"m_graph_snapshot_single_flow = operators\.m_graph_snapshot_single_flow;", "FSL_COPY_MAP(s, operators);"),
+    V(r"m_elevation_snapshot_keys = operators\.elevation_snapshot_keys\(\);", "s->n_elev_keys = operators->n_elev_keys; FSL_COPY_KEYS(s->elev_keys, operators->elev_keys);"),
+    V(r"\bm_(elevation_updated|graph_updated|out_flowdir|all_single_flow) = operators\.(\w+)\(\);", r"s->m_\1 = operators->m_\2;"),
+]
+
+
+def move_groups():
+    import fv.extract as fx
+    move_assign.pre = MODEL + MOVE_MODEL
+    # default member initialisers apply to members the constructor's list does not mention: none is left implicit in the contract
+    ctor_text = _move_ctor_body()
+    for r in MOVE_CTOR_VOCAB:
+        ctor_text = re.sub(r.pat, r.repl, ctor_text)
+    for pat, what in fx.RESIDUAL:
+        if re.search(pat, ctor_text):
+            raise fx.ExtractionError("move constructor initialiser list: residual C++ (%s): %r" % (what, ctor_text))
+    ctor_fn = (MODEL + MOVE_MODEL + "void opseq_move_ctor(struct opseq *s, const struct opseq *operators)\n"
+               "__CPROVER_requires(__CPROVER_is_fresh(s, sizeof(*s)) && __CPROVER_is_fresh(operators, sizeof(*operators)))\n"
+               "__CPROVER_assigns(__CPROVER_object_whole(s))\n__CPROVER_ensures(%s)\n{\n"
+               "/* default member initialisers (flow_operator.hpp:422-425), overridden by the list below */\n"
+               "s->m_elevation_updated = 0; s->m_graph_updated = 0; s->m_out_flowdir = FD_undefined; s->m_all_single_flow = 1; s->n_ops = 0; s->n_impls = 0; s->n_graph_keys = 0; s->n_elev_keys = 0;\n"
+               "/* mem-initialiser list of the move constructor, mechanically turned into assignments */\n%s}\n" % (MOVE_POST, ctor_text))
+    g1 = Group(name="opseq.move_assign", units=[move_assign],
+               harness=H("opseq_move_assign", "a, (const struct opinst *) 0, b", "struct opseq *a; const struct opseq *b;"),
+               entry="h_opseq_move_assign", enforce="opseq_move_assign", unwind=MAXK + 2, timeout=120, min_obligations=8,
+               clause="move assignment of an operator sequence carries over direction, all-single, graph/elevation-updated flags and the key lists")
+    g2 = Group(name="opseq.move_ctor", units=[], harness=ctor_fn + H("opseq_move_ctor", "a, b", "struct opseq *a; const struct opseq *b;"),
+               entry="h_opseq_move_ctor", enforce="opseq_move_ctor", unwind=MAXK + 2, timeout=120, min_obligations=8,
+               clause="move construction of an operator sequence (the way flow_graph receives it) carries over the same summary")
+    return [g1, g2]
+
+
+MAXK = 8
+_MV = move_groups()
+for _g in _MV:
+    _g.replay = "replay/opseq.cpp"
+GROUPS["C20"] = GROUPS["C20"] + _MV
+GROUPS["C09"] = GROUPS["C09"] + _MV
